@@ -63,7 +63,8 @@ def _gen_sched(rng, nops):
     if r < 0.65:
         return {'kind': 'pct', 'seed': seed, 'd': rng.choice([1, 2, 3]), 'horizon': horizon}
     if r < 0.95:
-        return {'kind': 'bounded', 'seed': seed, 'k': rng.choice([1, 2, 3]), 'horizon': horizon}
+        return {'kind': 'bounded', 'seed': seed, 'k': rng.choice([1, 2, 3]), 'horizon': horizon,
+            'handoff': rng.random() < 0.5}
     return {'kind': 'sequential', 'seed': seed}
 
 
@@ -115,7 +116,7 @@ def gen_case(rng, tier):
     cls = rng.choice(['LRI', 'LRU'])
     max_size = rng.choice([1, 2, 2, 3, 3, 4])
     keys = rng.choice([[1, 2, 3, 4, 5], ['a', 'b', 'c', 'd', 'e']])[:rng.randint(2, 5)]
-    on_miss = rng.choice(['none', 'none', 'none', 'pure', 'reent_set'])
+    on_miss = rng.choice(['none', 'none', 'none', 'pure', 'reent_set', 'raises'])
     nthreads = rng.choice([2, 2, 2, 3, 3, 4])
     threads = []
     budget = 14
@@ -125,7 +126,28 @@ def gen_case(rng, tier):
         threads.append(_gen_ops(rng, keys, n, 't%d' % t))
     npre = rng.randint(0, max_size)
     preload = [[keys[i % len(keys)], 'p%d' % i] for i in range(npre)]
+    if rng.random() < 0.01:
+        # scale: a big, full cache; two threads work on its oldest and newest entries and on new keys
+        max_size = rng.choice([16, 40, 130, 260])
+        base = list(range(1000, 1000 + max_size + 4))
+        preload = [[k, 'p%d' % k] for k in base[:max_size]]
+        edge = base[:2] + base[max_size - 2:max_size + 4]
+        threads = [[op for op in _gen_ops(rng, edge, min(len(t), 3), 't%d' % i) if op[0] != 'copy'] or [['len']]
+                   for i, t in enumerate(threads[:2])]
     nops = sum(len(t) for t in threads)
+    if rng.random() < (0.004 if tier == 'thorough' else 0.001):
+        # scale: one bulk update with very many items against short reader/writer programs
+        cnt = rng.choice([300, 1030, 2100])
+        max_size = rng.choice([cnt + 50, 64])
+        bulk = ['update', [[5000 + i, 'a%d' % i] for i in range(cnt)], rng.choice(['pairs', 'dict'])]
+        ks = [5000 + rng.randrange(cnt) for _ in range(3)] + [5000, 5000 + cnt - 1]
+        other = [op for op in _gen_ops(rng, ks, 3, 't1') if op[0] not in ('copy', 'update', 'ior')] or [['len']]
+        threads = [[bulk], other]
+        preload = preload[:2]
+        sched = {'kind': 'bounded', 'seed': rng.getrandbits(32), 'k': rng.choice([1, 2]), 'horizon': 90 * cnt,
+                 'handoff': rng.random() < 0.7}
+        return {'cls': cls, 'max_size': max_size, 'on_miss': 'none', 'preload': preload, 'threads': threads,
+                'sched': sched}
     return {'cls': cls, 'max_size': max_size, 'on_miss': on_miss, 'preload': preload,
             'threads': threads, 'sched': _gen_sched(rng, nops)}
 
@@ -227,8 +249,29 @@ def fixed_cases(tier):
                                 'threads': [[a1], [b1]],
                                 'sched': {'kind': 'explicit', 'switches': [[k1, 1], [k1 + k2, 0]]}}
                     sw.add(na * nb, mk2)
+    # scale floor: one bulk update of 1100 new keys against reads of an early and a late key of the
+    # bulk, pre-empted once at 24 (quick) / 200 (thorough) evenly spaced points of the update
+    for cls in ('LRI', 'LRU'):
+        bulk = ['update', [[5000 + i, 'a%d' % i] for i in range(1100)], 'pairs']
+        reads = [['getd', 5003, 'dflt'], ['getd', 6095, 'dflt'], ['len']]
+        n = _steps_alone_cfg(cls, 1300, [[1, 'p0'], [2, 'p1']], bulk)
+        pts = 10 if tier == 'quick' else 200
+
+        def mkb(j, cls=cls, bulk=bulk, reads=reads, n=n, pts=pts):
+            k = max(1, int((j // 2 + 0.5) * n / pts))
+            # odd j: the waiting thread gets the lock as soon as it is released (lock hand-off)
+            return {'cls': cls, 'max_size': 1300, 'on_miss': 'none', 'preload': [[1, 'p0'], [2, 'p1']],
+                    'threads': [[bulk], reads],
+                    'sched': {'kind': 'explicit', 'switches': [[k, 1]], 'handoff': bool(j % 2)}}
+        sw.add(2 * pts, mkb)
     _FIXED[tier] = sw
     return sw
+
+
+def _steps_alone_cfg(cls, max_size, preload, op):
+    case = {'cls': cls, 'max_size': max_size, 'on_miss': 'none', 'preload': preload,
+            'threads': [[op]], 'sched': {'kind': 'sequential', 'seed': 0}}
+    return run_case(case).steps
 
 
 def case_size(case):
@@ -247,7 +290,8 @@ def run_case(case):
     log = core.EventLog(keep=False)
     nthreads = len(case['threads'])
     policy = threadsim.make_policy(case['sched'], nthreads)
-    sched = threadsim.Scheduler(policy, log, step_cap=case.get('step_cap', 20000))
+    sched = threadsim.Scheduler(policy, log, step_cap=case.get('step_cap', 20000 + 400 * case['max_size']
+                                                     + 300 * sum(len(o[1]) for t in case['threads'] for o in t if o[0] in ('update', 'ior'))))
     ctx = L.Ctx(sched)
     spec = M.Spec(case['cls'], case['max_size'], case.get('on_miss', 'none'))
     c = L.make_cache(case, ctx, sched)
@@ -293,9 +337,14 @@ def run_case(case):
         out.nontrivial.append(core.h64([case['cls'], case['max_size'], case['threads'], sig]))
 
     if reason == 'deadlock':
-        out.fail('deadlock', sched.step, 'no runnable thread: %s' % _blocked(sched))
+        held = [t.tid for t in sched.threads if t.done and any(l.owner is t for l in sched.locks)]
+        out.fail('deadlock', sched.step, 'no runnable thread: %s%s'
+                 % (_blocked(sched), ('; finished thread(s) %r still hold a lock' % held) if held else ''))
     elif reason == 'no-progress':
         out.fail('no-progress', sched.step, 'more than %d scheduler steps' % sched.step_cap)
+    if out.violation is None and any(l.owner is not None for l in sched.locks):
+        out.fail('lock-leaked', sched.step, 'all threads finished but a cache lock is still held: the cache is unusable '
+                 'for every other thread')
     if out.violation is None:
         _judge(case, spec, state, hist, c, out)
     out.digest = log.digest()
@@ -331,7 +380,7 @@ def _judge(case, spec, init_state, hist, c, out):
                 return
     # the cache must still be usable: probe contents and eviction order via the public API
     try:
-        with threadsim.OpcodeBudget(400000):
+        with threadsim.OpcodeBudget(400000 + 600 * ms * ms):
             pr = L.probe(c, ms)
     except threadsim.OpcodeBudget.Exceeded:
         out.fail('cache-unusable', 0, 'probing the cache after the threads finished did not terminate')
